@@ -3,6 +3,7 @@
 import sys, subprocess, os
 name, prop, file, old, new = sys.argv[1:6]
 wt = '/tmp/mut'
+if not os.path.isdir(wt): subprocess.run(['git', '-C', '/repo', 'worktree', 'add', '--detach', wt, 'HEAD', '-q'], check=True)  # scratch worktree (removed at the end of a session)
 subprocess.run(['git', '-C', wt, 'checkout', '-q', '--', '.'], check=True)
 p = os.path.join(wt, file)
 s = open(p).read()
